@@ -312,11 +312,11 @@ def random_sets(n, seed):
                 rels = rng.sample(["r", "s", "x", "y"], rng.randint(0, 3))
                 decls.append({"kind": kind, "name": name, "rels": rels})
             conds = rng.sample(["c", "d", "e"], rng.choice([0, 0, 1, 1, 2]))
-            files.append({"name": "f%d.fga" % (i + 1), "header": header, "decls": decls, "conds": conds})
+            files.append({"name": "f%d.fga" % (i + 1), "header": header, "decls": decls, "conds": conds, "loose": rng.random() < 0.4})
         # make most sets plausible: the first file declares the popular types
         if rng.random() < 0.7:
             files[0] = {"name": "f1.fga", "header": "m1", "decls": [{"kind": "type", "name": "t", "rels": rng.sample(["r"], rng.randint(0, 1))},
-                                                                     {"kind": "type", "name": "u", "rels": []}, {"kind": "type", "name": "v", "rels": ["y"]}], "conds": []}
+                                                                     {"kind": "type", "name": "u", "rels": []}, {"kind": "type", "name": "v", "rels": ["y"]}], "conds": [], "loose": False}
         out.append({"id": "g%d.%d" % (seed, k), "files": files})
     return out
 
